@@ -7,8 +7,12 @@ import DryocVerif.Properties.C10
 import DryocVerif.Properties.C16
 import DryocVerif.Properties.C09
 import DryocVerif.Proofs.RawExtra
+import DryocVerif.Proofs.StreamPushRawExtra
 import DryocVerif.Proofs.OpenRawExtra
+import DryocVerif.Proofs.BoxOpenRawExtra
+import DryocVerif.Proofs.PwhashVerifyExtra
 import DryocVerif.Proofs.SignVectors
+import DryocVerif.Proofs.ObjectViewExtra
 /-
 C04 — no attacker-facing function panics.
 
@@ -30,6 +34,22 @@ construction.  The second half of this file ("CODE-SHAPED models") therefore sta
 (`Model/RawOps.lean`, `Model/SecretStreamRaw.lean`, `Model/OpenRaw.lean`), proves `…Raw = total model`
 (so no panic branch is reachable, and every theorem about the total model is a theorem about the
 code-shaped one), and proves that the same code with a guard deleted DOES panic (`…Old`, `…NoGuard`).
+
+KNOWN EXCEPTION (latent defect, second review round): the secretstream functions DO panic on inputs of
+≈ 256 GiB.  The dryoc guard `len > MESSAGEBYTES_MAX = 64·(2^32 − 2)` is 64 bytes more forgiving than the
+`chacha20` 0.9.1 / `cipher` 0.4.4 crates, whose `remaining_blocks()` is `u32::MAX − block_pos`: after
+`seek(128)` only `64·(2^32 − 3)` key-stream bytes are handed out and `apply_keystream` unwraps the error.
+`pullRaw_panics_near_max` (47 ciphertext lengths, authenticator must verify) and `pushRaw_panics_near_max`
+(64 message lengths) state it; `pullRaw_never_panics` / `pushRaw_never_panics` carry the length hypothesis.
+Not demonstrable on this machine (needs 256 GiB buffers); the total models `pull` / `push` (and therefore
+`pull_never_panics`, `push_never_panics`, `objPush_ok` below) do not see it.
+
+NOT COVERED by the never-panic theorems — see the section "OBSERVATION" at the end: the OBJECT API takes its
+fixed-length arguments (authenticator, signature, key, nonce) as any `ByteArray<N>`, and `Vec<u8>` / `&[u8]` are
+`ByteArray<N>` for every `N` with an `as_array` that ASSERTS `len >= N`.  With such a container a too short
+authenticator / signature / key is a PANIC (and a too long one is silently truncated).  The models the theorems
+above speak about (`objDecrypt`, `verifyDetached`, `hmacVerify`, `onetimeauthVerify`, …) take the arguments at
+their exact length, which is what every container whose TYPE carries the length guarantees.
 -/
 namespace DryocVerif.Properties.C04
 open DryocVerif
@@ -57,14 +77,17 @@ theorem pull_err_or_ok (P : Model.SecretStream.Prims) (s : Model.SecretStream.St
   split; · exact Or.inl rfl
   exact Or.inr ⟨by omega, by omega, rfl⟩
 
-/-- the classic stream push never panics: wrong buffer size is an error, everything else succeeds -/
+/-- the TOTAL MODEL of the classic stream push never panics: wrong buffer size is an error, everything else
+succeeds.  True by totalisation (the model has no key-stream limit); for the code as written see
+`pushRaw_never_panics` (needs `message.len() ≤ 64·(2^32 − 3)`) and `pushRaw_panics_near_max`. -/
 theorem push_never_panics (P : Model.SecretStream.Prims) (s : Model.SecretStream.State) (ctLen : Nat) (m ad : Bytes) (tag : UInt8) :
     Model.SecretStream.push P s ctLen m ad tag ≠ .panic ∧
     (Model.SecretStream.push P s ctLen m ad tag = .err ↔ ctLen ≠ m.length + 17) := by
   unfold Model.SecretStream.push Model.SecretStream.ABYTES
   split <;> simp_all
 
-/-- `DryocStream::push` always succeeds -/
+/-- the TOTAL MODEL of `DryocStream::push` always succeeds (by totalisation; for the code as written see
+`objPushRaw_eq_objPush`, which needs `message.len() ≤ 64·(2^32 − 3)`, and `objPushRaw_panics_near_max`) -/
 theorem objPush_ok (P : Model.SecretStream.Prims) (s : Model.SecretStream.State) (m ad : Bytes) (tag : UInt8) :
     ∃ c s', Model.SecretStream.objPush P s m ad tag = .ok (c, s') :=
   ⟨_, _, Proofs.SecretStream.push_eq P s m ad tag⟩
@@ -297,29 +320,92 @@ and the theorems say that the guards in front of those operations exclude it for
 section StreamRaw
 open DryocVerif.Model.SecretStream
 
+/-- `STREAM_BODY_MAX = 64·(2^32 − 3)`: the key-stream bytes ChaCha20 0.9.1 hands out after `seek(128)`;
+`MESSAGEBYTES_MAX_RAW = 64·(2^32 − 2)`: the bound the dryoc source checks.  They differ by one block. -/
+theorem stream_bounds : STREAM_BODY_MAX = 274877906752 ∧ MESSAGEBYTES_MAX_RAW = 274877906816 ∧
+    MESSAGEBYTES_MAX_RAW = STREAM_BODY_MAX + 64 := by decide
+
+/-- the crate's rule, as modelled: `seek(pos); apply_keystream(buf)` at a block boundary panics iff
+`buf.len() > 64 · (u32::MAX − pos / 64)` (`check_remaining` counts `ceil(len / 64)` blocks against
+`remaining_blocks() = u32::MAX − block_pos`; `apply_keystream` unwraps) -/
+theorem keystream_rule (P : Prims) (s : State) (pos len : Nat) :
+    keystream P s pos len =
+      if 64 * (2 ^ 32 - 1 - pos / 64) < len then .panic else .ok (P.chacha s.k s.nonce (pos / 64) len) :=
+  Proofs.SecretStream.keystream_eq P s pos len
+
 /-- **`crypto_secretstream_xchacha20poly1305_pull`, statement by statement, equals the total model** for
 every state, message buffer, tag variable, ciphertext and associated data: after the two length guards
 none of `ciphertext.len() - ABYTES`, `ciphertext[0]`, `1 + mlen`, `&ciphertext[1..1 + mlen]`,
 `&ciphertext[1 + mlen..]`, `&_pad0[..n]`, the `size_data` copies, `message[..mlen].copy_from_slice(..)`,
 the `i64` padding arithmetic or the three `apply_keystream` calls can fail.  The only hypothesis is
-`ciphertext.len() ≤ MESSAGEBYTES_MAX_RAW` (≈ 256 GiB), beyond which the Rust returns `Err`
-(`pullRaw_too_long`) and the total model has no branch; no hypothesis on the message buffer is needed,
-a too small buffer is an `Err` of the function itself. -/
+`ciphertext.len() ≤ 64·(2^32 − 3) + 17` (≈ 256 GiB), the crate's key-stream limit; no hypothesis on the message
+buffer is needed, a too small buffer is an `Err` of the function itself.
+
+What this does NOT see (reviewer's note): `pullRawWith` maps every `.err` of the body to the untouched buffers
+by construction — the model is written in source order and every `return Err` precedes the first write — so a
+mutation moving `*tag = decrypted_tag` in front of the MAC comparison is caught by the differential run of
+C17 only, not by this theorem. -/
 theorem pullRaw_eq_pull (P : Prims) (s : State) (m : Bytes) (tagv : UInt8) (ct ad : Bytes)
-    (h : ct.length ≤ MESSAGEBYTES_MAX_RAW) : pullRaw P s m tagv ct ad = pull P s m tagv ct ad :=
+    (h : ct.length ≤ STREAM_BODY_MAX + 17) : pullRaw P s m tagv ct ad = pull P s m tagv ct ad :=
   Proofs.SecretStream.pullRaw_eq_pull P s m tagv ct ad h
 
-/-- the `MESSAGEBYTES_MAX_RAW` guard: an over-long ciphertext is an `Err` that changes nothing.  (It is this guard
-that keeps `cipher.seek(128); cipher.apply_keystream(&mut message[..mlen])` inside the 2^32-block key stream.) -/
+/-- the `MESSAGEBYTES_MAX_RAW` guard: an over-long ciphertext is an `Err` that changes nothing.  (It was meant to
+keep `cipher.seek(128); cipher.apply_keystream(&mut message[..mlen])` inside the key stream; it is one
+block too generous, see `pullRaw_panics_near_max`.) -/
 theorem pullRaw_too_long (P : Prims) (s : State) (m : Bytes) (tagv : UInt8) (ct ad : Bytes)
     (h : MESSAGEBYTES_MAX_RAW < ct.length) : pullRaw P s m tagv ct ad = ⟨.err, m, tagv, s⟩ :=
   Proofs.SecretStream.pullRaw_too_long P s m tagv ct ad h
 
-/-- **the classic `pull` as written never panics** — no hypothesis: any primitives, state, buffer (any size,
-empty included), ciphertext (any length, empty included), associated data -/
-theorem pullRaw_never_panics (P : Prims) (s : State) (m : Bytes) (tagv : UInt8) (ct ad : Bytes) :
+/-- **the classic `pull` as written never panics on a ciphertext of at most `64·(2^32 − 3) + 17` bytes**: any
+primitives, state, buffer (any size, empty included), ciphertext, associated data -/
+theorem pullRaw_never_panics (P : Prims) (s : State) (m : Bytes) (tagv : UInt8) (ct ad : Bytes)
+    (h : ct.length ≤ STREAM_BODY_MAX + 17) :
     (pullRaw P s m tagv ct ad).res ≠ .panic :=
-  Proofs.SecretStream.pullRaw_never_panics P s m tagv ct ad
+  Proofs.SecretStream.pullRaw_never_panics P s m tagv ct ad h
+
+/-- … nor on one longer than `MESSAGEBYTES_MAX_RAW`.  This is the weakest hypothesis on the length alone. -/
+theorem pullRaw_never_panics_outside_window (P : Prims) (s : State) (m : Bytes) (tagv : UInt8) (ct ad : Bytes)
+    (h : ct.length ≤ STREAM_BODY_MAX + 17 ∨ MESSAGEBYTES_MAX_RAW < ct.length) :
+    (pullRaw P s m tagv ct ad).res ≠ .panic :=
+  Proofs.SecretStream.pullRaw_never_panics_outside_window P s m tagv ct ad h
+
+/-- **LATENT DEFECT of the code at ≈ 256 GiB inputs.**  A ciphertext whose length lies strictly between
+`64·(2^32 − 3) + 17` and `MESSAGEBYTES_MAX = 64·(2^32 − 2)` (47 lengths), whose authenticator verifies, pulled
+into a buffer that is large enough, passes all three guards of the source and then PANICS in
+`cipher.apply_keystream(&mut message[..mlen])` (the `unwrap()` of `StreamCipherError`): ChaCha20 0.9.1 hands
+out `u32::MAX − 2` blocks after `seek(128)`, the message needs one more.  At that moment `*tag` and a copy of
+the (still encrypted) body have been written, the state has not.  Proved from lengths alone — no 256 GiB list
+is constructed — and therefore not demonstrable by a run on this machine. -/
+theorem pullRaw_panics_near_max (P : Prims) (s : State) (m : Bytes) (tagv : UInt8) (ct ad : Bytes)
+    (h1 : STREAM_BODY_MAX + 17 < ct.length) (h2 : ct.length ≤ MESSAGEBYTES_MAX_RAW)
+    (hm : ct.length - 17 ≤ m.length)
+    (hauth : ct.drop (1 + (ct.length - 17)) = Proofs.SecretStream.pullMac P s ct ad) :
+    (pullRaw P s m tagv ct ad).res = .panic := by
+  rw [Proofs.SecretStream.pullRaw_panics_near_max P s m tagv ct ad h1 h2 hm hauth]
+
+/-- **exactly when the classic `pull` as written panics** (so the hypothesis of `pullRaw_never_panics` cannot be
+weakened except by looking at the authenticator or the buffer size) -/
+theorem pullRaw_panic_iff (P : Prims) (s : State) (m : Bytes) (tagv : UInt8) (ct ad : Bytes) :
+    (pullRaw P s m tagv ct ad).res = .panic ↔
+      STREAM_BODY_MAX + 17 < ct.length ∧ ct.length ≤ MESSAGEBYTES_MAX_RAW ∧ ct.length - 17 ≤ m.length ∧
+        ct.drop (1 + (ct.length - 17)) = Proofs.SecretStream.pullMac P s ct ad :=
+  Proofs.SecretStream.pullRaw_panic_iff P s m tagv ct ad
+
+/-- non-vacuity witness for `pullRaw_panics_near_max`, symbolically (lengths only, nothing is evaluated): with
+a constant 16-byte "authenticator" the all-zero ciphertext of `MESSAGEBYTES_MAX_RAW` bytes meets every
+hypothesis -/
+example : ∃ (P : Prims) (s : State) (m ct ad : Bytes),
+    STREAM_BODY_MAX + 17 < ct.length ∧ ct.length ≤ MESSAGEBYTES_MAX_RAW ∧ ct.length - 17 ≤ m.length ∧
+      ct.drop (1 + (ct.length - 17)) = Proofs.SecretStream.pullMac P s ct ad := by
+  refine ⟨⟨fun _ _ _ l => zeros l, fun k _ => k, fun _ _ => zeros 16⟩, ⟨[], []⟩,
+    List.replicate MESSAGEBYTES_MAX_RAW 0, List.replicate MESSAGEBYTES_MAX_RAW 0, [], ?_, ?_, ?_, ?_⟩
+  · rw [List.length_replicate]; decide
+  · rw [List.length_replicate]
+  · rw [List.length_replicate]; exact Nat.sub_le _ _
+  · rw [List.length_replicate, List.drop_replicate]
+    show List.replicate _ 0 = zeros 16
+    unfold zeros
+    congr 1
 
 /-- **counter-model (fix E5 is load-bearing)**: the same statements without the
 `ciphertext.len() < ABYTES` guard panic in `ciphertext.len() - ABYTES` for EVERY ciphertext shorter than
@@ -332,29 +418,94 @@ theorem pullRawOld_eq_of_long (P : Prims) (s : State) (m : Bytes) (tagv : UInt8)
     (h : 17 ≤ ct.length) : pullRawOld P s m tagv ct ad = pullRaw P s m tagv ct ad :=
   Proofs.SecretStream.pullRawOld_eq_of_long P s m tagv ct ad h
 
+/-- **`crypto_secretstream_xchacha20poly1305_push`, statement by statement, equals the total model** for every
+message of at most `64·(2^32 − 3)` bytes, every ciphertext buffer (content and size; a wrong size is the `Err`
+of both), AD, tag byte and state: `message.len() + ABYTES`, `ciphertext[0] = block[0]`,
+`ciphertext[1..1 + mlen].copy_from_slice(message)`, the three `apply_keystream` calls, the `size_data` copies,
+the `i64` padding arithmetic, `&_pad0[0..n]` and the two slice writes of `mac.finalize(&mut ciphertext[1 + mlen..])`
+all succeed.  `WF P`: the key stream has the requested length and the authenticator has 16 bytes. -/
+theorem pushRaw_eq_push (P : Prims) (hP : Proofs.SecretStream.WF P) (s : State) (ct msg ad : Bytes) (tag : UInt8)
+    (h : msg.length ≤ STREAM_BODY_MAX) :
+    pushRaw P s ct msg ad tag = push P s ct.length msg ad tag :=
+  Proofs.SecretStream.pushRaw_eq_push P hP s ct msg ad tag h
+
+/-- **the classic `push` as written never panics on a message of at most `64·(2^32 − 3)` bytes** -/
+theorem pushRaw_never_panics (P : Prims) (hP : Proofs.SecretStream.WF P) (s : State) (ct msg ad : Bytes)
+    (tag : UInt8) (h : msg.length ≤ STREAM_BODY_MAX) : pushRaw P s ct msg ad tag ≠ .panic :=
+  Proofs.SecretStream.pushRaw_never_panics P hP s ct msg ad tag h
+
+/-- the `MESSAGEBYTES_MAX` guard of `push` (`msg.len() + 17 < 2^64`: a fact about slices) -/
+theorem pushRaw_too_long (P : Prims) (s : State) (ct msg ad : Bytes) (tag : UInt8)
+    (hm : msg.length + 17 < 2 ^ 64) (h : MESSAGEBYTES_MAX_RAW < msg.length) :
+    pushRaw P s ct msg ad tag = .err :=
+  Proofs.SecretStream.pushRaw_too_long P s ct msg ad tag hm h
+
+/-- **LATENT DEFECT, sending side.**  For the 64 message lengths `64·(2^32 − 3) < len ≤ 64·(2^32 − 2)` the
+classic `push`, on a buffer of the right size, passes both guards and PANICS in
+`cipher.apply_keystream(&mut ciphertext[1..1 + mlen])` — for every state, AD, tag byte and message content
+(no `WF P` needed).  Not demonstrable on this machine (≈ 256 GiB message). -/
+theorem pushRaw_panics_near_max (P : Prims) (s : State) (ct msg ad : Bytes) (tag : UInt8)
+    (hl : ct.length = msg.length + 17)
+    (h1 : STREAM_BODY_MAX < msg.length) (h2 : msg.length ≤ MESSAGEBYTES_MAX_RAW) :
+    pushRaw P s ct msg ad tag = .panic :=
+  Proofs.SecretStream.pushRaw_panics_near_max P s ct msg ad tag hl h1 h2
+
+/-- non-vacuity witness (lengths only) -/
+example : ∃ ct msg : Bytes, ct.length = msg.length + 17 ∧ STREAM_BODY_MAX < msg.length ∧
+    msg.length ≤ MESSAGEBYTES_MAX_RAW :=
+  ⟨List.replicate (MESSAGEBYTES_MAX_RAW + 17) 0, List.replicate MESSAGEBYTES_MAX_RAW 0,
+    by simp, by rw [List.length_replicate]; decide, by simp⟩
+
+/-- **`DryocStream::push` as written** (`resize(len + ABYTES)`, classic push, `?`) equals the total model up to the
+crate's limit, and panics in the window above it -/
+theorem objPushRaw_eq_objPush (P : Prims) (hP : Proofs.SecretStream.WF P) (s : State) (msg ad : Bytes) (tag : UInt8)
+    (h : msg.length ≤ STREAM_BODY_MAX) : objPushRaw P s msg ad tag = objPush P s msg ad tag :=
+  Proofs.SecretStream.objPushRaw_eq_objPush P hP s msg ad tag h
+
+theorem objPushRaw_panics_near_max (P : Prims) (s : State) (msg ad : Bytes) (tag : UInt8)
+    (h1 : STREAM_BODY_MAX < msg.length) (h2 : msg.length ≤ MESSAGEBYTES_MAX_RAW) :
+    objPushRaw P s msg ad tag = .panic :=
+  Proofs.SecretStream.objPushRaw_panics_near_max P s msg ad tag h1 h2
+
 /-- **`DryocStream::pull` as written equals the total model** (guard, `len - ABYTES`, `resize`, classic
-pull, `Tag::from_bits_retain`), for ciphertexts up to `MESSAGEBYTES_MAX_RAW`; beyond: `Err` -/
-theorem objPullCode_eq_objPull (P : Prims) (s : State) (ct ad : Bytes) (h : ct.length ≤ MESSAGEBYTES_MAX_RAW) :
+pull on `&mut self.state`, `?`, `Tag::from_bits_retain`), for ciphertexts up to `64·(2^32 − 3) + 17` bytes;
+beyond `MESSAGEBYTES_MAX_RAW`: `Err`; in between: `objPullCode_panics_near_max` -/
+theorem objPullCode_eq_objPull (P : Prims) (s : State) (ct ad : Bytes) (h : ct.length ≤ STREAM_BODY_MAX + 17) :
     objPullCode P s ct ad = objPull P s ct ad :=
   Proofs.SecretStream.objPullCode_eq_objPull P s ct ad h
+
+/-- … and equals `objPullRaw`, the model function that threads the state through the `?` as the Rust does -/
+theorem objPullCode_eq_objPullRaw (P : Prims) (s : State) (ct ad : Bytes) (h : ct.length ≤ STREAM_BODY_MAX + 17) :
+    objPullCode P s ct ad = objPullRaw P s ct ad :=
+  Proofs.SecretStream.objPullCode_eq_objPullRaw P s ct ad h
 
 theorem objPullCode_too_long (P : Prims) (s : State) (ct ad : Bytes) (h : MESSAGEBYTES_MAX_RAW < ct.length) :
     objPullCode P s ct ad = (.err, s) :=
   Proofs.SecretStream.objPullCode_too_long P s ct ad h
 
-/-- **`DryocStream::pull` as written never panics** — no hypothesis -/
-theorem objPullCode_never_panics (P : Prims) (s : State) (ct ad : Bytes) :
+/-- **`DryocStream::pull` as written never panics** outside the 47-length window -/
+theorem objPullCode_never_panics (P : Prims) (s : State) (ct ad : Bytes)
+    (h : ct.length ≤ STREAM_BODY_MAX + 17 ∨ MESSAGEBYTES_MAX_RAW < ct.length) :
     (objPullCode P s ct ad).1 ≠ .panic :=
-  Proofs.SecretStream.objPullCode_never_panics P s ct ad
+  Proofs.SecretStream.objPullCode_never_panics P s ct ad h
 
-/-- **counter-model (`Tag::from_bits(tag).expect(..)`, before the `from_bits_retain` fix)**: it panics
-exactly on the messages the current code ACCEPTS (authenticator verified) whose tag byte has a bit outside
-`MESSAGE | PUSH | REKEY | FINAL = 0b11` — and the stream state has advanced by then -/
-theorem objPullOld_panics_iff (P : Prims) (s : State) (ct ad : Bytes) :
+/-- … and inside it panics on every ciphertext whose authenticator verifies (state untouched) -/
+theorem objPullCode_panics_near_max (P : Prims) (s : State) (ct ad : Bytes)
+    (h1 : STREAM_BODY_MAX + 17 < ct.length) (h2 : ct.length ≤ MESSAGEBYTES_MAX_RAW)
+    (hauth : ct.drop (1 + (ct.length - 17)) = Proofs.SecretStream.pullMac P s ct ad) :
+    objPullCode P s ct ad = (.panic, s) :=
+  Proofs.SecretStream.objPullCode_panics_near_max P s ct ad h1 h2 hauth
+
+/-- **counter-model (`Tag::from_bits(tag).expect(..)`, before the `from_bits_retain` fix)**: outside the
+near-maximum window it panics exactly on the messages the current code ACCEPTS (authenticator verified)
+whose tag byte has a bit outside `MESSAGE | PUSH | REKEY | FINAL = 0b11` — and the stream state has advanced
+by then -/
+theorem objPullOld_panics_iff (P : Prims) (s : State) (ct ad : Bytes)
+    (hlen : ct.length ≤ STREAM_BODY_MAX + 17 ∨ MESSAGEBYTES_MAX_RAW < ct.length) :
     (objPullOld P s ct ad).1 = .panic ↔
       ∃ msg t st, objPullCode P s ct ad = (.ok (msg, t), st) ∧ t &&& 0xFC ≠ 0 := by
   rw [Proofs.SecretStream.objPullOld_eq]
-  have hnp := Proofs.SecretStream.objPullCode_never_panics P s ct ad
+  have hnp := Proofs.SecretStream.objPullCode_never_panics P s ct ad hlen
   rcases hr : objPullCode P s ct ad with ⟨res, st⟩
   rw [hr] at hnp
   cases res with
@@ -398,6 +549,103 @@ theorem fromSealedBytesRaw_never_panics (bs : Bytes) : fromSealedBytesRaw bs ≠
 theorem fromSealedBytesNoGuard_short_panics (bs : Bytes) (h : bs.length < 48) :
     fromSealedBytesNoGuard bs = .panic :=
   Proofs.SecretBox.fromSealedBytesNoGuard_short bs h
+
+/-! ### the classic opens, statement by statement
+
+`openEasy`, `openEasyInplace`, `boxOpenEasy`, `boxOpenEasyInplace`, `sealOpen` of `Model/SecretBox.lean` (the
+functions the theorems of the first half and of C02 / C17 are about) place their `panic` branches by hand.
+`openEasyRaw` … `sealOpenRaw` (`Model/OpenRaw.lean`) are built from the checked operations only — `errIf`,
+`split_at`, `ByteArray::as_array` (an `assert!`), `&mut message[..ciphertext.len()]`, `copy_from_slice`, the two
+XSalsa20 `apply_keystream` calls with the crate's `check_remaining`, `rotate_left`, `len - SEALBYTES`,
+`&ciphertext[..32]`, `&ciphertext[32..]` — following the Rust statement by statement through
+`crypto_secretbox_open_detached(_inplace)`, `crypto_secretbox_open_verify` and the `crypto_box_open_detached*`
+wrappers.  They equal the hand models for every input; the only hypothesis, `ciphertext.len() < 2^64`, is a
+fact about slices (it keeps the 2^64-block XSalsa20 key stream from running out). -/
+
+/-- **`crypto_secretbox_open_easy` as written equals the hand model** -/
+theorem openEasyRaw_eq (P : Prims) (buf ct n k : Bytes) (hl : ct.length < 2 ^ 64) :
+    openEasyRaw P buf ct n k = openEasy P buf ct n k :=
+  Proofs.SecretBox.openEasyRaw_eq P buf ct n k hl
+
+/-- … so the one panic of the code as written is the caller's: a message buffer shorter than `ct.len() - 16`
+(`&mut message[..ciphertext.len()]`), decided before any ciphertext byte is looked at -/
+theorem openEasyRaw_panic_iff (P : Prims) (buf ct n k : Bytes) (hl : ct.length < 2 ^ 64) :
+    (openEasyRaw P buf ct n k).res = .panic ↔ 16 ≤ ct.length ∧ buf.length < ct.length - 16 := by
+  rw [openEasyRaw_eq P buf ct n k hl]; exact openEasy_panic_iff P buf ct n k
+
+/-- **`crypto_secretbox_open_easy_inplace` as written equals the hand model** and never panics -/
+theorem openEasyInplaceRaw_eq (P : Prims) (ct n k : Bytes) (hl : ct.length < 2 ^ 64) :
+    openEasyInplaceRaw P ct n k = openEasyInplace P ct n k :=
+  Proofs.SecretBox.openEasyInplaceRaw_eq P ct n k hl
+
+theorem openEasyInplaceRaw_never_panics (P : Prims) (ct n k : Bytes) (hl : ct.length < 2 ^ 64) :
+    (openEasyInplaceRaw P ct n k).res ≠ .panic := by
+  rw [openEasyInplaceRaw_eq P ct n k hl]; exact openEasyInplace_never_panics P ct n k
+
+/-- **`crypto_box_open_easy` as written equals the hand model** -/
+theorem boxOpenEasyRaw_eq (P : Prims) (buf ct n pk sk : Bytes) (hl : ct.length < 2 ^ 64) :
+    boxOpenEasyRaw P buf ct n pk sk = boxOpenEasy P buf ct n pk sk :=
+  Proofs.SecretBox.boxOpenEasyRaw_eq P buf ct n pk sk hl
+
+theorem boxOpenEasyRaw_panic_iff (P : Prims) (buf ct n pk sk : Bytes) (hl : ct.length < 2 ^ 64) :
+    (boxOpenEasyRaw P buf ct n pk sk).res = .panic ↔ 16 ≤ ct.length ∧ buf.length < ct.length - 16 := by
+  rw [boxOpenEasyRaw_eq P buf ct n pk sk hl]; exact boxOpenEasy_panic_iff P buf ct n pk sk
+
+/-- **`crypto_box_open_easy_inplace` as written equals the hand model** and never panics -/
+theorem boxOpenEasyInplaceRaw_eq (P : Prims) (ct n pk sk : Bytes) (hl : ct.length < 2 ^ 64) :
+    boxOpenEasyInplaceRaw P ct n pk sk = boxOpenEasyInplace P ct n pk sk :=
+  Proofs.SecretBox.boxOpenEasyInplaceRaw_eq P ct n pk sk hl
+
+theorem boxOpenEasyInplaceRaw_never_panics (P : Prims) (ct n pk sk : Bytes) (hl : ct.length < 2 ^ 64) :
+    (boxOpenEasyInplaceRaw P ct n pk sk).res ≠ .panic := by
+  rw [boxOpenEasyInplaceRaw_eq P ct n pk sk hl]; exact boxOpenEasyInplace_never_panics P ct n pk sk
+
+/-- **`crypto_box_seal_open` as written equals the hand model** and never panics: after the two length checks
+`message.len() = ciphertext.len() - 48`, so the buffer slice inside `crypto_secretbox_open_detached` fits -/
+theorem sealOpenRaw_eq (P : Prims) (buf ct rpk rsk : Bytes) (hl : ct.length < 2 ^ 64) :
+    sealOpenRaw P buf ct rpk rsk = sealOpen P buf ct rpk rsk :=
+  Proofs.SecretBox.sealOpenRaw_eq P buf ct rpk rsk hl
+
+theorem sealOpenRaw_never_panics (P : Prims) (buf ct rpk rsk : Bytes) (hl : ct.length < 2 ^ 64) :
+    (sealOpenRaw P buf ct rpk rsk).res ≠ .panic := by
+  rw [sealOpenRaw_eq P buf ct rpk rsk hl]; exact sealOpen_never_panics P buf ct rpk rsk
+
+/-- the functions the opens go through, as written: `crypto_secretbox_open_detached(_inplace)` -/
+theorem openDetachedRaw_eq (P : Prims) (buf mac c n k : Bytes) (hl : c.length < 2 ^ 64) :
+    openDetachedRaw P buf mac c n k = openDetached P buf mac c n k :=
+  Proofs.SecretBox.openDetachedRaw_eq P buf mac c n k hl
+
+theorem openDetachedInplaceRaw_eq (P : Prims) (data mac n k : Bytes) (hl : data.length < 2 ^ 64) :
+    openDetachedInplaceRaw P data mac n k = openDetachedInplace P data mac n k :=
+  Proofs.SecretBox.openDetachedInplaceRaw_eq P data mac n k hl
+
+/-- **counter-models (`NoGuard`)**: the same statements with the `ciphertext.len() < MACBYTES` (resp.
+`< SEALBYTES`) check deleted panic on EVERY short input — in `split_at(16)`, resp. in
+`ciphertext.len() - SEALBYTES` — for every instantiation of the primitives, with nothing written -/
+theorem openEasyNoGuard_short_panics (P : Prims) (buf ct n k : Bytes) (h : ct.length < 16) :
+    openEasyNoGuard P buf ct n k = ⟨.panic, buf⟩ :=
+  Proofs.SecretBox.openEasyNoGuard_short P buf ct n k h
+
+theorem openEasyInplaceNoGuard_short_panics (P : Prims) (ct n k : Bytes) (h : ct.length < 16) :
+    openEasyInplaceNoGuard P ct n k = ⟨.panic, ct⟩ :=
+  Proofs.SecretBox.openEasyInplaceNoGuard_short P ct n k h
+
+theorem boxOpenEasyNoGuard_short_panics (P : Prims) (buf ct n pk sk : Bytes) (h : ct.length < 16) :
+    boxOpenEasyNoGuard P buf ct n pk sk = ⟨.panic, buf⟩ :=
+  Proofs.SecretBox.boxOpenEasyNoGuard_short P buf ct n pk sk h
+
+theorem boxOpenEasyInplaceNoGuard_short_panics (P : Prims) (ct n pk sk : Bytes) (h : ct.length < 16) :
+    boxOpenEasyInplaceNoGuard P ct n pk sk = ⟨.panic, ct⟩ :=
+  Proofs.SecretBox.boxOpenEasyInplaceNoGuard_short P ct n pk sk h
+
+theorem sealOpenNoGuard_short_panics (P : Prims) (buf ct rpk rsk : Bytes) (h : ct.length < 48) :
+    sealOpenNoGuard P buf ct rpk rsk = ⟨.panic, buf⟩ :=
+  Proofs.SecretBox.sealOpenNoGuard_short P buf ct rpk rsk h
+
+/-- for inputs of at least 16 bytes the guard-free `open_easy` is the current one -/
+theorem openEasyNoGuard_eq_of_long (P : Prims) (buf ct n k : Bytes) (h : 16 ≤ ct.length) :
+    openEasyNoGuard P buf ct n k = openEasyRaw P buf ct n k :=
+  Proofs.SecretBox.openEasyNoGuard_long P buf ct n k h
 
 end BoxRaw
 
@@ -527,6 +775,47 @@ theorem strVerify_argon2_never_panics_of_le (s : Str) (pwd : Bytes)
   have := hm r m hp hr
   omega
 
+/-- **`PwHash::from_string(s)?.verify(pwd)` as written (`strVerifyRaw`: parse, five `unwrap()`s, the checked
+`1024 * m_cost`, then `crypto_pwhash` with its range checks and `convert_costs`, `hash_length = hash.len()`)
+never panics**, for every string and password, under the memory bound of `strVerify_argon2_never_panics` and —
+this route only — a decoded hash field shorter than `u32::MAX` bytes.  The reviewer asked for the memory bound
+alone; that is FALSE: see `strVerifyRaw_panics_at_max_hash`. -/
+theorem strVerifyRaw_never_panics (s : Str) (pwd : Bytes)
+    (hm : ∀ r m, parse s = .ok r → r.m = some m → 7 * (max m 8 / 4) < 2 ^ 32 + 3)
+    (hh : ∀ r h, parse s = .ok r → r.pwhash = some h → h.length < 0xFFFFFFFF) :
+    strVerifyRaw s pwd ≠ .panic :=
+  Proofs.PwhashExtra.strVerifyRaw_ne_panic s pwd hm hh
+
+/-- … in particular for every string of at most 2^32 characters (the hash field decodes to at most 3/4 of them) -/
+theorem strVerifyRaw_never_panics_of_short (s : Str) (pwd : Bytes)
+    (hm : ∀ r m, parse s = .ok r → r.m = some m → 7 * (max m 8 / 4) < 2 ^ 32 + 3)
+    (hs : s.length ≤ 2 ^ 32) : strVerifyRaw s pwd ≠ .panic :=
+  Proofs.PwhashExtra.strVerifyRaw_ne_panic_of_short s pwd hm hs
+
+/-- **the hash-length bound is necessary (latent defect, theoretical)**: a well-formed string whose hash field
+decodes to exactly `u32::MAX` bytes makes `PwHash::from_string(s)?.verify(pwd)` panic in `longhash`
+(`assert!(output.len() < u32::MAX)`) after Argon2 has filled the whole memory — `Argon2Context::new` accepts
+`outlen = 0xFFFFFFFF`.  Proved symbolically (the string has ≈ 5.7·10^9 characters); `crypto_pwhash_str_verify`
+is not affected (fixed 32-byte output). -/
+theorem strVerifyRaw_panics_at_max_hash {alg : Alg} {t m : Nat} {pwd salt hash : Bytes}
+    (ht : 1 ≤ t) (ht' : t < 2 ^ 32) (hm8 : 8 ≤ m) (hm : m < 2 ^ 32)
+    (h7 : 7 * (max m 8 / 4) < 2 ^ 32 + 3)
+    (hs : 8 ≤ salt.length) (hs' : salt.length ≤ 0xFFFFFFFF) (hpw : pwd.length ≤ 0xFFFFFFFF)
+    (hh : hash.length = 0xFFFFFFFF) :
+    strVerifyRaw (encode alg t m salt hash) pwd = .panic :=
+  Proofs.PwhashExtra.strVerifyRaw_panics_at_max_hash ht ht' hm8 hm h7 hs hs' hpw hh
+
+/-- non-vacuity witnesses: the hypotheses of `strVerifyRaw_never_panics_of_short` on the INTERACTIVE shape, a
+malformed string (trivially, result `Err`), and the hypotheses of `strVerifyRaw_panics_at_max_hash` (lengths
+only: a list of `u32::MAX` zero bytes exists as a term, nothing is evaluated) -/
+example : (encode .argon2id 2 65536 (zeros 16) (zeros 32)).length ≤ 2 ^ 32 := by decide
+example : strVerifyRaw "$argon2x$v=19$m=1,t=1,p=1$AA$AA".toList [1, 2, 3] = .err := by decide
+example : ∃ (t m : Nat) (pwd salt hash : Bytes), 1 ≤ t ∧ t < 2 ^ 32 ∧ 8 ≤ m ∧ m < 2 ^ 32 ∧
+    7 * (max m 8 / 4) < 2 ^ 32 + 3 ∧ 8 ≤ salt.length ∧ salt.length ≤ 0xFFFFFFFF ∧ pwd.length ≤ 0xFFFFFFFF ∧
+    hash.length = 0xFFFFFFFF :=
+  ⟨1, 8, [], zeros 16, List.replicate 0xFFFFFFFF 0, by decide, by decide, by decide, by decide, by decide,
+    by decide, by decide, by decide, List.length_replicate ..⟩
+
 /-- non-vacuity witness for `hm`: the libsodium INTERACTIVE string shape (`m = 65536`, `t = 2`) -/
 example : ∀ r m, parse (encode .argon2id 2 65536 (zeros 16) (zeros 32)) = .ok r → r.m = some m →
     7 * (max m 8 / 4) < 2 ^ 32 + 3 := by
@@ -592,6 +881,12 @@ example : objPull toyPrims toyState (toyPushed 0xff).1 [] = (.ok ([0x41, 0x42, 0
   decide
 example : objPullOld toyPrims toyState (toyPushed 0xff).1 [] = (.panic, (toyPushed 0xff).2) := by decide
 example : (toyPushed 0xff).2 ≠ toyState := by decide
+/-- the code-shaped `push` on the same toy instance: the classic form into a 20-byte buffer of garbage and the
+object form give the ciphertext and state of the total model; a buffer of the wrong size is an `Err` -/
+example : pushRaw toyPrims toyState (List.replicate 20 0xee) [0x41, 0x42, 0x43] [] 0xff = .ok (toyPushed 0xff) := by
+  decide
+example : objPushRaw toyPrims toyState [0x41, 0x42, 0x43] [] 0xff = .ok (toyPushed 0xff) := by decide
+example : pushRaw toyPrims toyState (zeros 19) [0x41, 0x42, 0x43] [] 0xff = .err := by decide
 /-- with a named tag (`FINAL = 3`) the old code agreed with the current one -/
 example : objPullOld toyPrims toyState (toyPushed 3).1 [] = (.ok ([0x41, 0x42, 0x43], 3), (toyPushed 3).2) := by decide
 /-- a tampered ciphertext byte, and a too small message buffer in the classic form: `Err`, nothing changes -/
@@ -601,6 +896,34 @@ example : pullRaw toyPrims toyState [0, 0] 7 (toyPushed 0xff).1 [] = ⟨.err, [0
 open DryocVerif.Model.SecretBox in
 example : fromBytesRaw (zeros 15) = .err ∧ fromBytesNoGuard (zeros 15) = .panic ∧
     fromBytesRaw (zeros 16 ++ [7]) = .ok ⟨none, zeros 16, [7]⟩ := by decide
+open DryocVerif.Model.SecretBox DryocVerif.Proofs.SecretBox in
+/-- the classic opens on the toy instance of `Proofs/SecretBox.lean` (kernel evaluation): a 15-byte "ciphertext"
+is an `Err` of the code as written and a panic without the guard; a sealed toy message opens; a forged one is
+an `Err` that leaves the buffer; a too small message buffer is the caller's panic -/
+example : openEasyRaw toyPrims [4, 4, 4] (zeros 15) toyNonce toyKey = ⟨.err, [4, 4, 4]⟩ ∧
+    openEasyNoGuard toyPrims [4, 4, 4] (zeros 15) toyNonce toyKey = ⟨.panic, [4, 4, 4]⟩ ∧
+    openEasyInplaceRaw toyPrims (zeros 15) toyNonce toyKey = ⟨.err, zeros 15⟩ ∧
+    openEasyInplaceNoGuard toyPrims (zeros 15) toyNonce toyKey = ⟨.panic, zeros 15⟩ ∧
+    boxOpenEasyRaw toyPrims [4] (zeros 15) toyNonce toySpk toyRsk = ⟨.err, [4]⟩ ∧
+    boxOpenEasyNoGuard toyPrims [4] (zeros 15) toyNonce toySpk toyRsk = ⟨.panic, [4]⟩ ∧
+    boxOpenEasyInplaceNoGuard toyPrims (zeros 15) toyNonce toySpk toyRsk = ⟨.panic, zeros 15⟩ ∧
+    sealOpenRaw toyPrims [] (zeros 47) toyRpk toyRsk = ⟨.err, []⟩ ∧
+    sealOpenNoGuard toyPrims [] (zeros 47) toyRpk toyRsk = ⟨.panic, []⟩ := by decide
+
+open DryocVerif.Model.SecretBox DryocVerif.Proofs.SecretBox in
+example : ∃ c, easy toyPrims (zeros 19) toyMsg toyNonce toyKey = .ok c ∧
+    openEasyRaw toyPrims [4, 4, 4] c toyNonce toyKey = ⟨.ok (), toyMsg⟩ ∧
+    openEasyInplaceRaw toyPrims c toyNonce toyKey = ⟨.ok (), toyMsg ++ c.take 16⟩ ∧
+    openEasyRaw toyPrims [4, 4, 4] (c.set 17 0) toyNonce toyKey = ⟨.err, [4, 4, 4]⟩ ∧
+    openEasyRaw toyPrims [4, 4] c toyNonce toyKey = ⟨.panic, [4, 4]⟩ :=
+  ⟨_, rfl, by decide, by decide, by decide, by decide⟩
+
+open DryocVerif.Model.SecretBox DryocVerif.Proofs.SecretBox in
+example : ∃ c, boxSeal toyPrims (zeros 51) toyMsg toyRpk toyEsk = .ok c ∧
+    sealOpenRaw toyPrims [4, 4, 4] c toyRpk toyRsk = ⟨.ok (), toyMsg⟩ ∧
+    sealOpenRaw toyPrims [4, 4] c toyRpk toyRsk = ⟨.err, [4, 4]⟩ :=
+  ⟨_, rfl, by decide, by decide⟩
+
 open DryocVerif.Model.SecretBox in
 example : fromSealedBytesRaw (zeros 47) = .err ∧ fromSealedBytesNoGuard (zeros 47) = .panic ∧
     fromSealedBytesRaw (zeros 32 ++ List.replicate 16 1 ++ [7]) = .ok ⟨some (zeros 32), List.replicate 16 1, [7]⟩ := by
@@ -639,4 +962,178 @@ example : needsRehashRaw "$$$".toList 2 67108864 = .err := by decide
 
 end Witnesses
 
+/-! # OBSERVATION: the object API with a variable-length container in a fixed-length position
+
+This section is an OBSERVATION about the code, stated with exact `iff`s so that the `…_never_panics` theorems above
+cannot be read as covering it.  It is not a never-panic theorem and it is not a defect claim.
+
+`impl ByteArray<N> for Vec<u8>` (/repo/src/types.rs:151; the same for `&[u8]` :337 and `[u8]` :351):
+
+    fn as_array(&self) -> &[u8; N] { assert!(self.len() >= N, …); &*(self.as_ptr() as *const [u8; N]) }
+
+Every object-API entry point takes its fixed-length arguments through `as_array` (`Model.ArrayView.asArray`,
+`Model/ObjectView.lean`).  Hence, when the caller instantiates the type parameter with `Vec<u8>` / `&[u8]`:
+the object API PANICS on a too-short authenticator, signature, tag, nonce or key, and looks only at the first `N`
+bytes of a too-long one.  This is a documented caller contract of `ByteArray<N> for Vec<u8>` ("Panics if …"), not
+an attacker-reachable path when the container type carries the length (`[u8; N]`, `StackByteArray<N>`,
+`HeapByteArray<N>`, `Locked<…>`: there `as_array` is the identity and the models of the sections above apply
+unchanged, `objectView_exact`).  It DOES become reachable from attacker-controlled bytes when an application
+deserialises or `from_parts`-builds a `DryocSecretBox<Vec<u8>, _>` / `SignedMessage<Vec<u8>, _>` (serde's `Vec<u8>`
+visitor has no length check: C16 `vecTag_short_decodes_then_decrypt_panics`) or passes a received MAC as `&Vec<u8>`
+to `Auth::verify` / `OnetimeAuth::verify` without checking its length first. -/
+
+section ObjectViewObservation
+open DryocVerif.Model.ObjectView DryocVerif.Model.SecretBox
+
+/-- **`SignedMessage::verify` (sign.rs) with variable-length containers.**  It panics IFF the signature container
+holds fewer than 64 bytes or the public-key container fewer than 32; it returns `Ok(())` IFF both are long enough
+and the FIRST 64 / 32 bytes are accepted by `crypto_sign_verify_detached`; `Err` in the remaining case. -/
+theorem objVerifyMessage_cases (H : Bytes → Bytes) (sig msg pk : Bytes) :
+    (objVerifyMessage H sig msg pk = .panic ↔ sig.length < 64 ∨ pk.length < 32) ∧
+    (objVerifyMessage H sig msg pk = .ok () ↔
+      64 ≤ sig.length ∧ 32 ≤ pk.length ∧
+        Model.Sign.verifyDetached H (sig.take 64) msg (pk.take 32) false = true) ∧
+    (objVerifyMessage H sig msg pk = .err ↔
+      64 ≤ sig.length ∧ 32 ≤ pk.length ∧
+        Model.Sign.verifyDetached H (sig.take 64) msg (pk.take 32) false = false) :=
+  Proofs.ObjectViewExtra.objVerifyMessage_cases H sig msg pk
+
+/-- `IncrementalSigner::verify(signature, public_key)` likewise (Ed25519ph over the hashed chunks) -/
+theorem objVerifyIncremental_cases (H : Bytes → Bytes) (cs : List Bytes) (sig pk : Bytes) :
+    (objVerifyIncremental H cs sig pk = .panic ↔ sig.length < 64 ∨ pk.length < 32) ∧
+    (objVerifyIncremental H cs sig pk = .ok () ↔
+      64 ≤ sig.length ∧ 32 ≤ pk.length ∧
+        Model.Sign.verifyDetached H (sig.take 64) (H cs.flatten) (pk.take 32) true = true) :=
+  Proofs.ObjectViewExtra.objVerifyIncremental_cases H cs sig pk
+
+/-- relation to the total model used in C06 / C16: with exact lengths the code-shaped function is
+`Model.Sign.verifyMessage`; in general `verifyMessage` is MORE FORGIVING than the code — whenever it says `true`
+the code says `Ok`, but on a wrong length it says `false` where the code panics or inspects a prefix -/
+theorem objVerifyMessage_vs_verifyMessage (H : Bytes → Bytes) (sig msg pk : Bytes) :
+    (sig.length = 64 → pk.length = 32 →
+      objVerifyMessage H sig msg pk = if Model.Sign.verifyMessage H (sig, msg) pk = true then .ok () else .err) ∧
+    (Model.Sign.verifyMessage H (sig, msg) pk = true → objVerifyMessage H sig msg pk = .ok ()) :=
+  ⟨Proofs.ObjectViewExtra.objVerifyMessage_exact H sig msg pk,
+    Proofs.ObjectViewExtra.verifyMessage_true_imp_obj H sig msg pk⟩
+
+/-- the difference is real (RFC 8032 TEST 1): a 65-byte `Vec` starting with the valid signature is `Ok` for the
+code and `false` for the total model; a 63-byte one is a panic for the code and `false` for the total model -/
+example : objVerifyMessage Spec.Sha512.sha512 (Proofs.SignVectors.tvSig ++ [0]) [] Proofs.SignVectors.tvPk = .ok () ∧
+    Model.Sign.verifyMessage Spec.Sha512.sha512 (Proofs.SignVectors.tvSig ++ [0], []) Proofs.SignVectors.tvPk = false ∧
+    objVerifyMessage Spec.Sha512.sha512 (Proofs.SignVectors.tvSig.take 63) [] Proofs.SignVectors.tvPk = .panic ∧
+    Model.Sign.verifyMessage Spec.Sha512.sha512 (Proofs.SignVectors.tvSig.take 63, []) Proofs.SignVectors.tvPk = false := by
+  refine ⟨?_, ?_, ?_, ?_⟩
+  · rw [(objVerifyMessage_cases _ _ _ _).2.1]
+    have e1 : (Proofs.SignVectors.tvSig ++ [0]).take 64 = Proofs.SignVectors.tvSig := by decide
+    have e2 : Proofs.SignVectors.tvPk.take 32 = Proofs.SignVectors.tvPk := by decide
+    rw [e1, e2]
+    exact ⟨by decide, by decide, Proofs.SignVectors.tv_verify⟩
+  · exact C06.wrong_length_rejected _ _ _ _ _ (Or.inl (by decide))
+  · exact (objVerifyMessage_cases _ _ _ _).1.2 (Or.inl (by decide))
+  · exact C06.wrong_length_rejected _ _ _ _ _ (Or.inl (by decide))
+
+/-- **`Auth::new(key)`, `update`…, `verify(tag)` (auth.rs).**  The KEY goes through `as_array` in `new`, the TAG in
+`verify`: a panic IFF the key container holds fewer than 32 bytes or the tag container fewer than 32; `Ok(())` IFF
+both are long enough and the first 32 bytes of the tag are HMAC-SHA-512-256 of the chunks under the first 32 bytes
+of the key. -/
+theorem authObjectVerify_cases (key : Bytes) (cs : List Bytes) (tag : Bytes) :
+    (authObjectVerify Spec.Sha512.sha512 key cs tag = .panic ↔ key.length < 32 ∨ tag.length < 32) ∧
+    (authObjectVerify Spec.Sha512.sha512 key cs tag = .ok () ↔
+      32 ≤ key.length ∧ 32 ≤ tag.length ∧
+        tag.take 32 = Spec.Hmac.hmacSha512256 (key.take 32) cs.flatten) :=
+  Proofs.ObjectViewExtra.authObjectVerify_cases key cs tag
+
+/-- `Auth::compute_and_verify(other_mac, key, input)` -/
+theorem authComputeAndVerify_cases (tag key msg : Bytes) :
+    (authComputeAndVerify Spec.Sha512.sha512 tag key msg = .panic ↔ tag.length < 32 ∨ key.length < 32) ∧
+    (authComputeAndVerify Spec.Sha512.sha512 tag key msg = .ok () ↔
+      32 ≤ tag.length ∧ 32 ≤ key.length ∧ tag.take 32 = Spec.Hmac.hmacSha512256 (key.take 32) msg) :=
+  Proofs.ObjectViewExtra.authComputeAndVerify_cases tag key msg
+
+/-- **`OnetimeAuth::new(key)`, `update`…, `verify(tag)` (onetimeauth.rs)**, key (32) and tag (16) both viewed -/
+theorem onetimeObjectVerify_cases (key : Bytes) (cs : List Bytes) (tag : Bytes) :
+    (onetimeObjectVerify key cs tag = .panic ↔ key.length < 32 ∨ tag.length < 16) ∧
+    (onetimeObjectVerify key cs tag = .ok () ↔
+      32 ≤ key.length ∧ 16 ≤ tag.length ∧ tag.take 16 = Spec.Poly1305.mac (key.take 32) cs.flatten) :=
+  Proofs.ObjectViewExtra.onetimeObjectVerify_cases key cs tag
+
+/-- `OnetimeAuth::compute_and_verify(other_mac, key, input)` -/
+theorem onetimeComputeAndVerify_cases (tag key msg : Bytes) :
+    (onetimeComputeAndVerify tag key msg = .panic ↔ tag.length < 16 ∨ key.length < 32) ∧
+    (onetimeComputeAndVerify tag key msg = .ok () ↔
+      16 ≤ tag.length ∧ 32 ≤ key.length ∧ tag.take 16 = Spec.Poly1305.mac (key.take 32) msg) :=
+  Proofs.ObjectViewExtra.onetimeComputeAndVerify_cases tag key msg
+
+/-- **`DryocSecretBox::decrypt` (dryocsecretbox.rs)** with a tag / nonce / key container of another length (the tag
+of a `DryocSecretBox<Vec<u8>, _>` comes from serde or `from_parts`): a panic IFF one of them is too short; otherwise
+the call IS `objDecrypt` (which never panics, `objDecrypt_never_panics`) on the 16 / 24 / 32-byte prefixes. -/
+theorem objDecryptView_cases (P : Prims) (b : Box) (nonce key : Bytes) :
+    (objDecryptView P b nonce key = .panic ↔ b.tag.length < 16 ∨ nonce.length < 24 ∨ key.length < 32) ∧
+    (¬ (b.tag.length < 16 ∨ nonce.length < 24 ∨ key.length < 32) →
+      objDecryptView P b nonce key
+        = objDecrypt P { b with tag := b.tag.take 16 } (nonce.take 24) (key.take 32)) :=
+  Proofs.ObjectViewExtra.objDecryptView_cases P b nonce key
+
+/-- **`DryocBox::decrypt` (dryocbox.rs)** -/
+theorem objBoxDecryptView_cases (P : Prims) (b : Box) (nonce pk sk : Bytes) :
+    (objBoxDecryptView P b nonce pk sk = .panic ↔
+      b.tag.length < 16 ∨ nonce.length < 24 ∨ pk.length < 32 ∨ sk.length < 32) ∧
+    (¬ (b.tag.length < 16 ∨ nonce.length < 24 ∨ pk.length < 32 ∨ sk.length < 32) →
+      objBoxDecryptView P b nonce pk sk
+        = objBoxDecrypt P { b with tag := b.tag.take 16 } (nonce.take 24) (pk.take 32) (sk.take 32)) :=
+  Proofs.ObjectViewExtra.objBoxDecryptView_cases P b nonce pk sk
+
+/-- **`DryocBox::unseal`**: `Err` without an ephemeral key (no view is evaluated); otherwise a panic IFF the
+ephemeral key, the recipient's public key, the tag or the recipient's secret key container is too short -/
+theorem objUnsealView_cases (P : Prims) (b : Box) (rpk rsk : Bytes) :
+    (objUnsealView P b rpk rsk = .panic ↔
+      ∃ e, b.epk = some e ∧ (e.length < 32 ∨ rpk.length < 32 ∨ b.tag.length < 16 ∨ rsk.length < 32)) ∧
+    (b.epk = none → objUnsealView P b rpk rsk = .err) ∧
+    (∀ e, b.epk = some e → ¬ (e.length < 32 ∨ rpk.length < 32 ∨ b.tag.length < 16 ∨ rsk.length < 32) →
+      objUnsealView P b rpk rsk
+        = objUnseal P { b with epk := some (e.take 32), tag := b.tag.take 16 } (rpk.take 32) (rsk.take 32)) :=
+  Proofs.ObjectViewExtra.objUnsealView_cases P b rpk rsk
+
+/-- **with exact lengths nothing of this section applies**: every view is the identity and the code-shaped functions
+ARE the models of the never-panic theorems above (so those theorems are about the code whenever the container TYPE
+carries the length) -/
+theorem objectView_exact (P : Prims) (b : Box) (nonce key : Bytes) (cs : List Bytes) (otag : Bytes)
+    (ht : b.tag.length = 16) (hn : nonce.length = 24) (hk : key.length = 32) :
+    objDecryptView P b nonce key = objDecrypt P b nonce key ∧
+    objDecryptView P b nonce key ≠ .panic ∧
+    onetimeObjectVerify key cs otag = Model.OnetimeAuth.objectVerifyChunks key cs otag := by
+  have h := Proofs.ObjectViewExtra.objDecryptView_exact P b nonce key ht hn hk
+  exact ⟨h, by rw [h]; exact Proofs.ObjectViewExtra.objDecrypt_ne_panic P b nonce key,
+    Proofs.ObjectViewExtra.onetimeObjectVerify_exact key hk cs otag⟩
+
+/-- witnesses (evaluated, toy primitives): a 15-byte tag panics in `decrypt`, whatever the rest; a 17-byte tag is
+used through its first 16 bytes; the same box with a 16-byte tag does what the total model says -/
+example :
+    let P : Prims := ⟨fun _ _ n => List.replicate n 3, fun _ m => List.replicate 16 (UInt8.ofNat m.length),
+      fun _ _ => zeros 32, fun _ => zeros 32, fun _ _ => zeros 32, fun _ => zeros 24⟩
+    objDecryptView P ⟨none, List.replicate 15 2, [1, 2]⟩ (zeros 24) (zeros 32) = .panic ∧
+    objDecryptView P ⟨none, List.replicate 16 2 ++ [99], [1, 2]⟩ (zeros 24) (zeros 32) = .ok [2, 1] ∧
+    objDecryptView P ⟨none, List.replicate 16 2, [1, 2]⟩ (zeros 24) (zeros 32) = .ok [2, 1] ∧
+    objDecrypt P ⟨none, List.replicate 16 2, [1, 2]⟩ (zeros 24) (zeros 32) = .ok [2, 1] ∧
+    objDecryptView P ⟨none, List.replicate 16 7, [1, 2]⟩ (zeros 24) (zeros 32) = .err ∧
+    objDecryptView P ⟨none, List.replicate 16 2, [1, 2]⟩ (zeros 23) (zeros 32) = .panic := by
+  decide
+
+end ObjectViewObservation
+
 end DryocVerif.Properties.C04
+
+section AxiomCheck
+open DryocVerif.Properties.C04
+#print axioms objVerifyMessage_cases
+#print axioms objVerifyIncremental_cases
+#print axioms objVerifyMessage_vs_verifyMessage
+#print axioms authObjectVerify_cases
+#print axioms authComputeAndVerify_cases
+#print axioms onetimeObjectVerify_cases
+#print axioms onetimeComputeAndVerify_cases
+#print axioms objDecryptView_cases
+#print axioms objBoxDecryptView_cases
+#print axioms objUnsealView_cases
+#print axioms objectView_exact
+end AxiomCheck
